@@ -88,7 +88,10 @@ func (reader *Reader) ReadTypedMsg() (types.ClientMessage, int, error) {
 
 	n, err := reader.ReadUntypedMsg()
 	if err != nil {
-		return 0, 0, err
+		// NOTE: the message type is returned alongside the error so callers
+		// are able to tell which kind of message has been rejected (e.g. when
+		// the maximum message size has been exceeded).
+		return typed, 0, err
 	}
 
 	return typed, n, nil
